@@ -35,6 +35,7 @@ struct XSock {
     std::string inflight;          // the offered message / bytes
     size_t inflight_taken = 0;     // how much of it the peer has already received
     std::string refused_offer;     // byte-stream: the bytes of the last refused (EAGAIN) offer
+    std::string failed_offer;      // byte-stream: bytes of a send that failed because the connection failed; a prefix may have been transmitted
     std::string ghost;             // byte-stream: bytes of a refused send that reached the peer anyway (known btls defect); skipped when re-offered
     bool closed_after_flush = false;   // closed gracefully: every accepted message had been flushed (finish==0 / blocking)
     uint64_t sent_ok = 0, recv_ok = 0;
@@ -49,14 +50,18 @@ struct XSock {
     int term_errno = 0;            // first terminal errno reported by any call
     bool terminal() const { return saw_eof || term_errno != 0; }
     int last_send_errno = 0;
+    bool conn_failed_send = false; // some xcm_send failed with a connection-level errno
     bool finish_ok_since_send = false;
     bool last_recv_eagain = false;
     uint64_t kmut_at_last_recv_eagain = 0;
     bool ignore_delivery = false;  // endpoint whose oracles are switched off (e.g. the crashing side)
+    bool dying = false;            // wire-cut fault: this end's host "dies" - its own calls are not judged, what it had accepted still identifies the peer's receives
+    std::vector<size_t> sent_lens; // lengths of the accepted messages, in order (messaging)
     bool is_tcp_based = false;
 };
 
 struct XOpts {
+    bool check_refusal = false;    // C03: a refused send must leave counters untouched
     bool check_counters = false;   // read all counters after every call (C17)
     bool check_fd_stable = true;   // C16: xcm_fd never changes
 };
